@@ -3,7 +3,8 @@
 
   Property theorems only (helper lemmas: SnowProofs/Lemmas/{SnowingLoop,SimpsonArr,Snowing}.lean).
   Models: SnowModel/Snowing0D.lean, Snowing1D.lean instantiated at ℝ (IEEE rounding is not
-  modelled).  2D: see Props of the 2D work package; here 2D is covered by predicates on real runs.
+  modelled).  2D: `SnowModel/Snowing2D.lean` (work package G), theorems `*_2D` in the second half of this file
+  through the loop bridge `SnowProofs/Lemmas/Snowing2DLoop.lean` / `Snowing2DRun.lean`.
 -/
 import SnowProofs.Lemmas.Snowing
 import SnowProofs.Lemmas.Snowing2DRun
@@ -927,5 +928,93 @@ theorem nonvacuous_2D : ∃ p : S2D.Par ℝ, WFGrid2D p ∧ 2 ≤ p.Nz ∧ 2 ≤
     simp only [S2D.radius, S2D.two, ofNat'_real]; norm_num
   · norm_num
   · norm_num
+
+
+/-! ### audit repair (M12): at a stochastic nucleation the nucleation frequency is positive, so the
+kinetic-mean bound holds unconditionally -/
+
+theorem Fnuc_lt_iff (a b : ℝ) : Fnuc a < Fnuc b ↔ a < b := by
+  unfold Fnuc
+  constructor
+  · intro h
+    have : Real.exp (-b) < Real.exp (-a) := by linarith
+    have := Real.exp_lt_exp.mp this
+    linarith
+  · intro h
+    have : Real.exp (-b) < Real.exp (-a) := Real.exp_lt_exp.mpr (by linarith)
+    linarith
+
+theorem Fnuc_zero : Fnuc 0 = 0 := by simp [Fnuc]
+
+/-- **1D**: at the step of a stochastic nucleation `K_v > 0` (`F_rand ≥ 0` – a uniform number –, `dt > 0`) -/
+theorem Kv_pos_at_crossing_1D (p : SnowIn ℝ) (Nz : ℕ) (old : Bool) (shelf : List ℝ) (hcn : p.cnTemp = none)
+    (hF : 0 ≤ p.Frand) (hdt : 0 < (grid1D p Nz).dt) (i : ℕ)
+    (h : (run1DOn p Nz old shelf).NtCoolEnd = some i) : 0 < (st1D p Nz shelf i).Kv := by
+  obtain ⟨hi, hcross, hprev⟩ := (nuc_first_crossing_1D p Nz old shelf hcn i).mp h
+  set step := coolStep1D p (grid1D p Nz) (saveStride (grid1D p Nz).NtExp) with hstep
+  have hE : (st1D p Nz shelf i).E =
+      (stateBefore step shelf (coolInit1D p (grid1D p Nz)) i).E + (st1D p Nz shelf i).Kv * (grid1D p Nz).dt := by
+    unfold st1D
+    rw [stateAt_eq_step_before step shelf _ i hi]
+    rfl
+  have hbefore : Fnuc (stateBefore step shelf (coolInit1D p (grid1D p Nz)) i).E ≤ p.Frand := by
+    cases i with
+    | zero => simp only [stateBefore, coolInit1D, zero_real, Fnuc_zero]; exact hF
+    | succ k => exact hprev k (by omega)
+  have hlt := (Fnuc_lt_iff _ _).mp (lt_of_le_of_lt hbefore hcross)
+  rw [hE] at hlt
+  have : 0 < (st1D p Nz shelf i).Kv * (grid1D p Nz).dt := by linarith
+  by_contra hneg
+  have := mul_nonpos_of_nonpos_of_nonneg (not_lt.mp hneg) (le_of_lt hdt)
+  linarith
+
+
+/-- **1D, unconditional**: for a stochastic nucleation (`F_rand ≥ 0`, `dt > 0`) the reported
+temperatures satisfy `min ≤ mean ≤ max` and `min ≤ T_kin ≤ T_eq_l` (°C) – the else-branch
+`T_kin = 273.15 K` cannot occur. -/
+theorem Tnuc_order_of_stochastic_run (p : SnowIn ℝ) (Nz : ℕ) (hw : WFGrid p Nz) (old : Bool) (shelf : List ℝ)
+    (hcn : p.cnTemp = none) (hF : 0 ≤ p.Frand) (hdt : 0 < (grid1D p Nz).dt)
+    (i : ℕ) (h : (run1DOn p Nz old shelf).NtCoolEnd = some i) (st : Stats1D ℝ)
+    (hst : (run1DOn p Nz old shelf).stats = some st) :
+    st.T_nuc_min ≤ st.T_nuc_mean ∧ st.T_nuc_mean ≤ st.T_nuc_max ∧
+      st.T_nuc_min ≤ st.T_nuc_kin ∧ st.T_nuc_kin ≤ p.T_eq_l - 273.15 := by
+  obtain ⟨h1, h2, h3, _⟩ := Tnuc_order_of_run p Nz hw old shelf i h st hst
+  obtain ⟨h4, h5⟩ := h3 (Kv_pos_at_crossing_1D p Nz old shelf hcn hF hdt i h)
+  exact ⟨h1, h2, h4, h5⟩
+
+open Snow.S2D in
+/-- **2D**: at the step of a stochastic nucleation `K_v > 0` -/
+theorem Kv_pos_at_crossing_2D (p : Par ℝ) (f : Flags) (T0C : ℝ) (prof : List ℝ) (NtExp : ℕ) (Frand : ℝ)
+    (hF : 0 ≤ Frand) (hdt : 0 < (mkCtx p f).dt) (i : ℕ)
+    (h : (cool2D p f T0C prof NtExp Frand none).1 = some i) : 0 < (st2D p f T0C prof NtExp i).Kv := by
+  obtain ⟨hi, hcross, hprev⟩ := (nuc_first_crossing_2D p f T0C prof NtExp Frand i).mp h
+  have hi' : i < (shelfK prof).length := by simpa [shelfK] using hi
+  have hE : (st2D p f T0C prof NtExp i).E =
+      (stateBefore (coolStep2D p f NtExp) (shelfK prof) (coolInit2D (mkCtx p f) T0C) i).E +
+        (st2D p f T0C prof NtExp i).Kv * (mkCtx p f).dt := by
+    unfold st2D
+    rw [stateAt_eq_step_before _ _ _ i hi']
+    rfl
+  have hbefore : Fnuc (stateBefore (coolStep2D p f NtExp) (shelfK prof) (coolInit2D (mkCtx p f) T0C) i).E ≤ Frand := by
+    cases i with
+    | zero => simp only [stateBefore, coolInit2D, zero_real, Fnuc_zero]; exact hF
+    | succ k => exact hprev k (by omega)
+  have hlt := (Fnuc_lt_iff _ _).mp (lt_of_le_of_lt hbefore hcross)
+  rw [hE] at hlt
+  by_contra hneg
+  have := mul_nonpos_of_nonpos_of_nonneg (not_lt.mp hneg) (le_of_lt hdt)
+  linarith
+
+open Snow.S2D in
+/-- **2D, unconditional**: for a stochastic nucleation the four reported temperatures satisfy
+`min ≤ mean ≤ max` and `min ≤ T_kin ≤ T_eq_l` -/
+theorem Tnuc_order_of_stochastic_run_2D (p : Par ℝ) (f : Flags) (hw : WFGrid2D p) (T0C : ℝ) (prof : List ℝ)
+    (NtExp : ℕ) (Frand : ℝ) (hF : 0 ≤ Frand) (hdt : 0 < (mkCtx p f).dt) (r : Result ℝ)
+    (h : run p f T0C prof NtExp Frand none = .ok r) :
+    r.TnucMin ≤ r.TnucMean ∧ r.TnucMean ≤ r.TnucMax ∧ r.TnucMin ≤ r.TnucKin ∧ r.TnucKin ≤ TeqL p - 273.15 := by
+  obtain ⟨h1, h2, h3, _⟩ := Tnuc_order_of_run_2D p f hw T0C prof NtExp Frand none r h
+  obtain ⟨hc, _⟩ := run2D_cool p f T0C prof NtExp Frand none r h
+  obtain ⟨h4, h5⟩ := h3 (Kv_pos_at_crossing_2D p f T0C prof NtExp Frand hF hdt r.iCool hc)
+  exact ⟨h1, h2, h4, h5⟩
 
 end Snow.C08
